@@ -9,6 +9,7 @@ pub const FIXTURE_SENTENCES: &[&str] = &[
     "Ⅲ", "第Ⅲ章", "İstanbul", "ǅ", "ß", "ﬃ", "…", "京都…東京都", "👍🏻東", "👨‍👩‍👧", "🇯🇵", "e\u{0301}", "か\u{3099}",
     "#\0M㍿", "\0", " ", "　", "\t\n", "a b", "𠮷野家", "𠮷", "\u{FDFA}", "\u{FDFA}a\u{FDFA}", "ﾞ", "゛東",
     "とうきょうとに行った", "きょうとふ", "とうきょうと", "アイウアイエ", "アイウアイ", "エアイウアイァ", "アイウアイに行った", "", "あ", "ぁ", "ー", "ーー", "、。", "abcdeABCDE", "αβγ", "привет", "1.", "1,", ".5", "1,23", "12,345,6",
+    "キロバイトだ", "10キロメートル", "メガバイト", "㌔バイト", "メガキロ", "キロ", "ギガメガに行く", "アイガに行く",
 ];
 
 const POOLS: &[&[&str]] = &[
@@ -25,7 +26,7 @@ const POOLS: &[&[&str]] = &[
     // numerals
     &["1", "2", "0", "00", "12", "345", "6789", "一", "二", "三", "〇", "十", "百", "千", "万", "億", "兆", ",", ".", "，", "．", "1,000", "3.5", "二千", "五百万", "１", "２"],
     // katakana runs, kana
-    &["カ", "タ", "カナ", "ァ", "ッ", "ー", "ヴ", "ヷ", "あ", "い", "ん", "っ", "を", "は", "です", "ます"],
+    &["カ", "タ", "カナ", "ァ", "ッ", "ー", "ヴ", "ヷ", "キロ", "メガ", "バイト", "あ", "い", "ん", "っ", "を", "は", "です", "ます"],
     // controls, unassigned, odd
     &["\0", "\u{1}", "\u{7F}", "\u{85}", "\u{A0}", "\u{AD}", "\u{FFFD}", "\u{FFFE}", "\u{10FFFF}", "\u{378}", "\u{E000}", "\n", "\r\n", "\t"],
     // greek / cyrillic / latin ext
